@@ -69,11 +69,16 @@ pub fn reformat_range_in_chunk(
     let source_indent_prefix = line_indent_prefix(source_text, selected_range.start());
     let target_indent_prefix =
         target_indent_prefix(chunk.syntax(), source_text, selected_range, config);
-    let dedented = strip_base_indent(fragment, &source_indent_prefix);
+    let source_token_lines = multiline_token_line_starts(chunk.syntax(), selected_range);
+    let dedented = strip_base_indent(fragment, &source_indent_prefix, &source_token_lines);
     let mut fragment_config = config.clone();
     fragment_config.output.insert_final_newline = fragment.ends_with('\n');
     let formatted = format_fragment(&dedented, level, &fragment_config)?;
-    let text = apply_base_indent(&formatted, &target_indent_prefix);
+    let formatted_tree = LuaParser::parse(&formatted, ParserConfig::with_level(level));
+    let formatted_root = formatted_tree.get_red_root();
+    let formatted_token_lines =
+        multiline_token_line_starts(&formatted_root, formatted_root.text_range());
+    let text = apply_base_indent(&formatted, &target_indent_prefix, &formatted_token_lines);
 
     Some(RangeFormatOutput {
         replace_range: selected_range,
@@ -412,8 +417,36 @@ fn contains_offset(range: TextRange, offset: TextSize) -> bool {
     range.start() <= offset && offset < range.end()
 }
 
-fn strip_base_indent(text: &str, indent_prefix: &str) -> String {
-    map_lines(text, |content, newline| {
+/// Offsets, relative to `range.start()`, of the line starts that lie inside a token spanning
+/// several lines (long strings, long comments). Leading whitespace on such a line is part of the
+/// token, not indentation, so it must be neither stripped nor added.
+fn multiline_token_line_starts(root: &LuaSyntaxNode, range: TextRange) -> Vec<usize> {
+    let range_start = usize::from(range.start());
+    let mut line_starts = Vec::new();
+    for token in root
+        .descendants_with_tokens()
+        .filter_map(|element| element.into_token())
+    {
+        let token_range = token.text_range();
+        if token_range.end() <= range.start() || token_range.start() >= range.end() {
+            continue;
+        }
+
+        let token_start = usize::from(token_range.start());
+        let text = token.text();
+        for (index, byte) in text.bytes().enumerate() {
+            let line_start = token_start + index + 1;
+            if byte == b'\n' && index + 1 < text.len() && line_start >= range_start {
+                line_starts.push(line_start - range_start);
+            }
+        }
+    }
+
+    line_starts
+}
+
+fn strip_base_indent(text: &str, indent_prefix: &str, token_line_starts: &[usize]) -> String {
+    map_lines(text, token_line_starts, |content, newline| {
         let stripped = content.strip_prefix(indent_prefix).unwrap_or(content);
         let mut line = String::with_capacity(stripped.len() + newline.len());
         line.push_str(stripped);
@@ -422,12 +455,12 @@ fn strip_base_indent(text: &str, indent_prefix: &str) -> String {
     })
 }
 
-fn apply_base_indent(text: &str, indent_prefix: &str) -> String {
+fn apply_base_indent(text: &str, indent_prefix: &str, token_line_starts: &[usize]) -> String {
     if indent_prefix.is_empty() {
         return text.to_string();
     }
 
-    map_lines(text, |content, newline| {
+    map_lines(text, token_line_starts, |content, newline| {
         if content.is_empty() {
             return newline.to_string();
         }
@@ -440,11 +473,22 @@ fn apply_base_indent(text: &str, indent_prefix: &str) -> String {
     })
 }
 
-fn map_lines(text: &str, mut map: impl FnMut(&str, &str) -> String) -> String {
+/// Rewrite every line of `text` with `map`, except the lines starting at one of `keep_line_starts`.
+fn map_lines(
+    text: &str,
+    keep_line_starts: &[usize],
+    mut map: impl FnMut(&str, &str) -> String,
+) -> String {
     let mut result = String::new();
+    let mut offset = 0;
     for line in text.split_inclusive('\n') {
-        let (content, newline) = split_line_ending(line);
-        result.push_str(&map(content, newline));
+        if keep_line_starts.contains(&offset) {
+            result.push_str(line);
+        } else {
+            let (content, newline) = split_line_ending(line);
+            result.push_str(&map(content, newline));
+        }
+        offset += line.len();
     }
 
     result
@@ -498,11 +542,17 @@ pub mod verif {
     pub fn line_indent_prefix(text: &str, line_start: TextSize) -> String {
         super::line_indent_prefix(text, line_start)
     }
-    pub fn strip_base_indent(text: &str, indent_prefix: &str) -> String {
-        super::strip_base_indent(text, indent_prefix)
+    pub fn strip_base_indent(text: &str, indent_prefix: &str, token_line_starts: &[usize]) -> String {
+        super::strip_base_indent(text, indent_prefix, token_line_starts)
     }
-    pub fn apply_base_indent(text: &str, indent_prefix: &str) -> String {
-        super::apply_base_indent(text, indent_prefix)
+    pub fn apply_base_indent(text: &str, indent_prefix: &str, token_line_starts: &[usize]) -> String {
+        super::apply_base_indent(text, indent_prefix, token_line_starts)
+    }
+    pub fn multiline_token_line_starts(
+        root: &emmylua_parser::LuaSyntaxNode,
+        range: TextRange,
+    ) -> Vec<usize> {
+        super::multiline_token_line_starts(root, range)
     }
     pub fn contains_range(container: TextRange, inner: TextRange) -> bool {
         super::contains_range(container, inner)
